@@ -445,7 +445,7 @@ def suites(rng, tier):
     ld = delev_finding_lines(rng) + [gen_delev_case(rng) for _ in range(ndv)]
     dd = {"cases": len(ld)}
     lr = [gen_roles_case(rng) for _ in range({"quick": 500, "thorough": 8000, "search": 2000}[tier])]
-    return [{"suite": "roles", "name": "role-assignment", "lines": lr,
+    return [{"suite": "roles", "name": "role-assignment", "lines": lr, "incoq": {"sample": 60, "to_v": roles_to_v, "ints": roles_ints},
              "distribution": {"cases": len(lr), "note": "histories of marginfi_group_configure with distinct keys per role and arbitrary signers, each followed by probes of the delegated instructions (configure_bank, configure_bank_emode, interest-only, limits-only, update_emissions_parameters, force_tokenless_repay_complete) signed by the new holder, the previous holder and the holders of the neighbouring roles"}},
             {"suite": "privsim", "name": "privsim-levelC", "lines": lp, "distribution": dp},
             {"suite": "delevsim", "name": "delevsim-levelC", "lines": ld, "distribution": dd},
@@ -494,6 +494,38 @@ def gen_roles_case(rng):
         else:
             ops.append(f"3 {rng.choice([0, 1, 60, 86400, rng.randrange(0, 10 ** 6)])}")
     return f"{t0} {len(ops)} " + " ".join(ops)
+
+
+ROLE_CTOR = {0: "GAdmin", 1: "GEmode", 2: "GCurve", 3: "GLimit", 4: "GEmissions", 5: "GMetadata", 6: "GRisk"}
+
+
+def roles_to_v(lines):
+    """sampled `roles` cases as Gallina terms for vm_compute (the model's own gr_fixture / gr_trace)"""
+    out = ["Require Import Base Constants ConfigGen Fixed Curve Config Emode ConfigPaths GroupRoles.", "Local Open Scope Z_scope."]
+    for l in lines:
+        ops, _ = parse_roles(l, "")
+        t0 = l.split()[0]
+        terms = []
+        for o in ops:
+            if o[0] == 1:
+                cap = lambda v: "None" if v is None else f"(Some ({v}))"
+                terms.append(f"GOConfigure {o[1]} (mkGC {' '.join(map(str, o[2]))} {cap(o[3][0])} {cap(o[3][1])})")
+            elif o[0] == 2:
+                terms.append(f"GOProbe {ROLE_CTOR[o[1]]} {o[2]}")
+            else:
+                terms.append(f"GOTick ({o[1]})")
+        out.append(f"Eval vm_compute in match gr_fixture {t0} with Ok g => gr_trace g {t0} [{'; '.join(terms)}] | Err _ => [] end.")
+    return "\n".join(out) + "\n"
+
+
+def roles_ints(model_line):
+    res = []
+    for sg in model_line.split(" | "):
+        x = sg.split()
+        r = x.pop(0)
+        res.append(0 if r == "OK" else -1 if r == "PANIC" else -2 if r == "NONE" else int(r[1:]) if r.startswith("E") else int(r))
+        res += [int(y) for y in x]
+    return res
 
 
 def parse_roles(case, impl):
